@@ -1080,3 +1080,108 @@ def c04(req, ra, ctr):
         return ['forwards-is-not-embed-of-mask: %s: forwards gives %s, embed(outer, mask(inner)) gives %s' % (
             engine.line(req), ra[:4], want[:4])]
     return []
+
+
+# ----------------------------------------------------------------------------- runtime-only requests
+def rt_problems(req, ra):
+    if req[0].startswith('rt:') and ra[0] == 'ok' and ra[1]:
+        return ['%s: %s' % (req[0][3:], p) for p in ra[1]]
+    return []
+
+
+# ----------------------------------------------------------------------------- C14
+def c14(req, ra, ctr):
+    from . import real_rt
+    op = req[0]
+    fails = rt_problems(req, ra)
+    if op in ('pyeq', 'pyne'):
+        a, b = req[1], req[2]
+        if ra[0] != 'ok':
+            fails.append('comparison-raises: %s %s %s gave %s' % (a, '==' if op == 'pyeq' else '!=', b, ra))
+            return fails
+        ctr['c14:comparisons'] += 1
+        if op == 'pyeq':
+            rev = real_rt.real_pyeq(('pyeq', b, a))
+            if rev != ra:
+                fails.append('asymmetric: %s == %s is %s but reversed is %s' % (a, b, ra, rev))
+            if a == b and ra[1] is not True:
+                fails.append('irreflexive: %s == itself is %s' % (a, ra))
+            if ra[1] is True:
+                h = real_rt.real_pyeq(('hasheq', a, b))
+                if h != ('ok', True):
+                    fails.append('eq-hash: %s == %s but hashes %s' % (a, b, h))
+            # same data, plain vs upgraded
+            if a[0] in 'Uu' and b[0] in 'Sp' and a[0].lower() == {'S': 'u', 'p': 'u'}[b[0]].lower() and False:
+                pass
+        else:
+            e = real_rt.real_pyeq(('pyeq', a, b))
+            if e[0] == 'ok' and e[1] == ra[1]:
+                fails.append('ne-is-not-not-eq: %s != %s is %s and == is %s' % (a, b, ra[1], e[1]))
+    elif op == 'hasheq':
+        if ra == ('unhashable',) and req[1][0] != 'O' and req[2][0] != 'O':
+            fails.append('unhashable: %s or %s is unhashable although plain inspect objects are hashable' % (req[1], req[2]))
+    return fails
+
+
+# ----------------------------------------------------------------------------- C16 (cleanup part) / C18 (histories)
+def c16(req, ra, ctr):
+    fails = rt_problems(req, ra)
+    if req[0] == 'cleanup':
+        _, fault, iw, is_, cw, cs = req
+        ctr['c16:cleanup-runs'] += 1
+        if ra[0] != 'ok':
+            return ['cleanup-raised: %s' % (ra,)]
+        if (ra[1], ra[2], ra[3], ra[4]) != (iw, is_, cw, cs):
+            fails.append('attributes-changed: cleanup_functools_wrapper with a fault at outside call %s turned attributes '
+                         '(inst __wrapped__=%s, inst __signature__=%s, class %s/%s) into %s' % (fault, iw, is_, cw, cs, ra[1:5]))
+    return fails
+
+
+def c18(req, ra, ctr):
+    fails = rt_problems(req, ra)
+    if req[0] == 'cache':
+        _, variant, ops = req
+        ctr['c18:histories'] += 1
+        if ra[0] == 'ok' and ra[1] and ra[1][0] == 'problem':
+            return ['%s (variant %s, history %s)' % (ra[1][1], variant, ','.join(ops))]
+        held = set()
+        wr = set()
+        for op in ops:
+            k, _, i = op.partition(':')
+            i = int(i) if i else None
+            if k == 'new':
+                held.add(i)
+            elif k == 'get' and i in held:
+                wr.add(i)
+            elif k == 'dropw':
+                wr.discard(i)
+            elif k == 'dropi':
+                held.discard(i)
+        for i in ra[1]:
+            if i not in held and i not in wr:
+                fails.append('retained: instance %d is still alive after the caller dropped it and everything obtained from it '
+                             '(variant %s, history %s)' % (i, variant, ','.join(ops)))
+        for i in held | wr:
+            if i not in ra[1]:
+                fails.append('reclaimed-early: instance %d died while still referenced (variant %s, history %s)' % (i, variant, ','.join(ops)))
+    return fails
+
+
+def c17(req, ra, ctr):
+    fails = rt_problems(req, ra)
+    fails = [f.split(': ', 1)[1] if f.split(':')[0] in ('asforged_threads', 'stress', 'window') else f for f in fails]
+    if req[0] == 'sched':
+        _, n, iw, schedule, events = req
+        ctr['c17:schedules'] += 1
+        if ra[0] != 'ok':
+            return ['sched-error: %s' % (ra,)]
+        _, final, done, saw = ra
+        if not done:
+            fails.append('not-finished: threads did not finish under line schedule %s' % (schedule,))
+        if final != iw:
+            fails.append('not-restored: after all threads finished __wrapped__ is %s, was %s; shared accesses: %s' % (final, iw, events))
+        if any(s for s in saw):
+            ctr['c17:window-schedules'] += 1
+            fails.append('cleanup-window: under some interleaving the body of one thread runs while another thread has put '
+                         '__wrapped__ back (it then follows the wrapped function): shared accesses %s' % (events,))
+    return fails
